@@ -10,6 +10,8 @@ from vt import core
 
 LEVEL = "proof"
 COMPS = ["..", ".", "", "a", "b", "out", "out2", "ou"]
+# components that only LOOK harmless: blank/tab-padded dots (a later "clean-up" of names must not turn them into '..')
+PADDED = [".. ", " ..", "..\t", " . ", ". ", " ", "...", "..  "]
 DSTS = ["out", "out/", "./out", "out//", "../w/out", "out/.", "$CWD/out", "$CWD/out/", "$CWD/../w/out", "/$CWD/out",
         "//$CWD/out", "out/../out"]
 
@@ -24,6 +26,11 @@ def gen_names(rng, tier):
     for _ in range(1500 if tier == "quick" else 40000):
         d = rng.choice([4, 5]) if tier == "quick" else 5
         names.append([rng.choice(COMPS) for _ in range(d)])
+    for _ in range(400 if tier == "quick" else 8000):
+        d = rng.choice([1, 2, 3, 4])
+        cs = [rng.choice(COMPS + PADDED) for _ in range(d)]
+        cs[rng.randrange(d)] = rng.choice(PADDED)
+        names.append(cs)
     res = []
     for cs in names:
         sep = "/"
@@ -71,6 +78,19 @@ def gen_cases(rng, tier):
                 nm.insert(rng.randrange(len(nm) + 1), form % (prev, tgt))
             steps.append({"dst": rng.choice(sib[d]), "names": nm})
         cases.append({"id": len(cases), "steps": steps})
+    # archives with symlink-mode entries (unix mode S_IFLNK in external_attr): link to an inside directory, a second
+    # link whose member name goes THROUGH the first, then regular members below the links
+    for j in range(120 if tier == "quick" else 2500):
+        d = rng.choice(sorted(sib))
+        l1 = rng.choice(["a/b/l1", "l1", "images/l1"])
+        t1 = rng.choice(["..", ".", "../..", "../../..", "$CWD/out2", "../" + rng.choice(sorted(sib))])
+        l2 = rng.choice([l1 + "/l2", l1 + "/x/l2", "l2"])
+        t2 = rng.choice(["..", "../..", "../../..", "$CWD", "../../" + rng.choice(sorted(sib))])
+        tail = rng.choice([l2 + "/evil.txt", l1 + "/evil.txt", l2 + "/d/", l2 + "/../evil2.txt", "ok.txt"])
+        nm = ["a/b/keep.txt", l1 + "->" + t1, l2 + "->" + t2, tail]
+        if rng.random() < 0.3:
+            nm.insert(0, "a/")
+        cases.append({"id": len(cases), "steps": [{"dst": rng.choice(sib[d]), "names": nm}]})
     # the SAME ZipFile object extracted into two or three different destinations (e.g. a server re-opening a
     # collection): every extraction must stay inside its own destination
     for j in range(60 if tier == "quick" else 1200):
